@@ -564,11 +564,14 @@ int32_t jls_core_annotations(struct jls_core_s * self, uint16_t signal_id, int64
             return JLS_ERROR_NOT_FOUND;
         }
         annotation = (struct jls_annotation_s *) self->buf->start;
+        pos = self->chunk_cur.hdr.item_next;
+        if (annotation->timestamp < timestamp) {
+            continue;  // the seek stops at or before the first match; not indexed yet: from the start
+        }
         annotation->timestamp -= sample_id_offset;
         if (cbk_fn(cbk_user_data, annotation)) {
             return 0;
         }
-        pos = self->chunk_cur.hdr.item_next;
     }
     return 0;
 }
@@ -642,6 +645,9 @@ int32_t jls_core_utc(struct jls_core_s * self, uint16_t signal_id, int64_t sampl
         if (hdr.tag == JLS_TAG_TRACK_UTC_DATA) {
             ROE(jls_core_rd_chunk(self));
             struct jls_utc_data_s * utc_data = (struct jls_utc_data_s *) self->buf->start;
+            if (utc_data->header.timestamp < sample_id) {
+                continue;  // entries that are not indexed yet are not filtered by the seek
+            }
             struct jls_utc_summary_entry_s entry = {
                 .sample_id = utc_data->header.timestamp - sample_id_offset,
                 .timestamp = utc_data->timestamp,
